@@ -13,15 +13,21 @@ HA == <<"!", "a", "!">>
 HB == <<"!", "b", "-", "c", "!">>           \* (a handle is made of word characters: letters, digits and "-")
 P1 == <<"t", "a", "g", ":", "x", ".", "o", "r", "g", ",", "2", "0", "0", "0", ":">>
 P2 == <<"!", "l", "o", "c", "-">>
+\* a prefix written with percent-escapes (its first two characters and one later on). The property does not say whether
+\* the escapes of a PREFIX are decoded: the prefix is reported either as written or decoded throughout (field alt)
+P3 == <<"%", "7", "4", "%", "6", "1", "g", ":", "e", "%", "2", "E", "o", "r", "g", ",", "2", "0", "0", "0", ":">>
 Handles == {H1, H2, HA, HB}
-DirLists == {<<>>} \cup {<< <<h, p>> >> : h \in Handles, p \in {P1, P2}} \cup {<< <<h, P1>>, <<g, P2>> >> : h \in Handles, g \in Handles}
+DirLists == {<<>>} \cup {<< <<h, p>> >> : h \in Handles, p \in {P1, P2, P3}} \cup {<< <<h, P1>>, <<g, P2>> >> : h \in Handles, g \in Handles}
 DirListsSmall == {<<>>} \cup {<< <<h, P2>> >> : h \in Handles}
 Spellings == { [form |-> "none"], [form |-> "nonspecific"], [form |-> "verbatim", v |-> <<"t", "a", "g", ":", "v", ".", "o", "r", "g", ",", "2", "0", "0", "0", ":", "t">>],
                [form |-> "secondary", s |-> <<"s", "t", "r">>], [form |-> "named", h |-> <<"a">>, s |-> <<"t">>],
                [form |-> "named", h |-> <<"b", "-", "c">>, s |-> <<"x", "%", "2", "1", "y">>], [form |-> "primary", s |-> <<"l">>],
                [form |-> "named", h |-> <<"a">>, s |-> <<"%", "2", "1">>],                                \* a suffix made of escapes only
                [form |-> "secondary", s |-> <<"%", "7", "3", "%", "7", "4", "%", "7", "2">>],
-               [form |-> "verbatim", v |-> <<"!", "l", "o", "c">>],                                  \* a verbatim LOCAL tag: not resolved through "%TAG !"
+               [form |-> "verbatim", v |-> <<"!", "l", "o", "c">>],
+               \* every punctuation character a tag may hold (URI characters that are neither "!" nor flow indicators)
+               [form |-> "named", h |-> <<"a">>, s |-> <<"o", "'", "n", ";", "/", "?", ":", "@", "&", "=", "+", "$", "_", ".", "~", "*", "(", ")", "#">>],
+               [form |-> "verbatim", v |-> <<"x", ":", "i", "t", "'", "s", ",", "[", "]", "!", "(", ")", "$">>],                                  \* a verbatim LOCAL tag: not resolved through "%TAG !"
                [form |-> "named", h |-> <<"a">>, s |-> <<"d", "%", "D", "0", "%", "9", "6", "%", "D", "F", "%", "B", "F", "%", "C", "2", "%", "8", "0", "%", "E", "0", "%", "A", "0", "%", "8", "0", "z">>],   \* lead bytes C2, D0, DF, E0
                [form |-> "named", h |-> <<"a">>, s |-> <<"c", "%", "C", "3", "%", "A", "9", "%", "E", "2", "%", "8", "2", "%", "A", "C", "%", "F", "0", "%", "9", "F", "%", "9", "8", "%", "8", "0">>] }
 \* later documents: the spellings that differ in how they resolve (the percent-escape variants are exercised by the first document)
@@ -74,10 +80,10 @@ OpenCase(ds, i, k) == k /\ i > 1 /\ ds[i].dirs # <<>> /\ HandleOf(ds[i].sp) # <<
 RECURSIVE Expect(_, _, _)
 Expect(ds, i, k) ==
   IF i > Len(ds) THEN <<>>
-  ELSE IF ~DirectivesOK(ds[i].dirs) THEN << [err |-> TRUE, tag |-> <<>>, kind |-> ds[i].kind] >>
-  ELSE IF OpenCase(ds, i, k) THEN << [err |-> FALSE, tag |-> <<>>, kind |-> "open"] >>
+  ELSE IF ~DirectivesOK(ds[i].dirs) THEN << [err |-> TRUE, tag |-> <<>>, alt |-> <<>>, kind |-> ds[i].kind] >>
+  ELSE IF OpenCase(ds, i, k) THEN << [err |-> FALSE, tag |-> <<>>, alt |-> <<>>, kind |-> "open"] >>
   ELSE LET r == Resolve(InForce(ds, i, k), ds[i].sp) IN
-       IF ~r.ok THEN << [err |-> TRUE, tag |-> <<>>, kind |-> ds[i].kind] >>
-       ELSE << [err |-> FALSE, tag |-> r.tag, kind |-> ds[i].kind] >> \o Expect(ds, i + 1, k)
+       IF ~r.ok THEN << [err |-> TRUE, tag |-> <<>>, alt |-> <<>>, kind |-> ds[i].kind] >>
+       ELSE << [err |-> FALSE, tag |-> r.tag, alt |-> (IF r.tag = <<>> THEN <<>> ELSE <<PctDecode(r.tag[1]), r.tag[2]>>), kind |-> ds[i].kind] >> \o Expect(ds, i + 1, k)
 Out == done => PrintT(<<"REPLAY", ToJson([text |-> StreamText(docs, 1), keep |-> keep, expect |-> Expect(docs, 1, keep)])>>)
 =======================================================================
